@@ -1,4 +1,5 @@
 import DateutilVerif.Properties.C04
+import DateutilVerif.Properties.TzObjGen   -- translator tie (wt-iso): tzlocal
 import DateutilVerif.Properties.TzGen   -- translator tie (wt-iso): obligations about the re-translated lookup functions
 #print axioms C04.roundtrip
 #print axioms C04.inj
@@ -27,3 +28,7 @@ import DateutilVerif.Properties.TzGen   -- translator tie (wt-iso): obligations 
 #print axioms C04.gen_eq_model_range_utcoffset
 #print axioms C04.roundtrip_gen
 #print axioms C04.gen_eq_model_tzinfo_fromutc
+#print axioms C04.gen_eq_model_tzlocal_utcoffset
+#print axioms C04.gen_eq_model_validate_fromutc_inputs
+#print axioms C04.gen_eq_model_fromutc_decorated
+#print axioms C04.gen_eq_model_tzfile_fromutc_decorated
